@@ -62,6 +62,7 @@ def run(ctx):
     deferred_obligation(ctx)
     endpoint_walk(ctx)
     entry_state_is_per_entry(ctx)
+    registry_identity(ctx)
     loss_sequence(ctx)
     callout_loops(ctx)
     proxy_registry(ctx)
@@ -663,6 +664,27 @@ def _container_control():
 
 
 C09_MODULES = ('client', 'objects', 'router', 'protocol', 'endpoints')
+
+
+def registry_identity(ctx):
+    """Live proxies are remembered in a WeakSet so that connection loss can
+    reach their disconnect callbacks.  A set holds ONE of several equal
+    members: the class of the members (and its bases in the package) must
+    compare and hash by identity, i.e. define neither __eq__ nor __hash__."""
+    prog = ctx.prog
+    cls = prog.cls('objects.RemoteDBusObject')
+    n = 0
+    for c in prog.mro(cls):
+        for special in ('__eq__', '__hash__'):
+            n += 1
+            ctx.ob('C09.D5', c.qualname, 'identity:%s' % special,
+                   special not in c.methods and special not in c.attrs,
+                   '%s defines %s: two live proxies for the same remote '
+                   'object then count as one member of the proxy registry '
+                   '(a WeakSet), the second is not tracked and its '
+                   'disconnect callbacks never run when the connection is '
+                   'lost' % (c.qualname, special), nontrivial=False)
+    return n
 
 
 def per_instance_registries(ctx, rule_id='C09.D6', modules=C09_MODULES,
